@@ -696,10 +696,21 @@ def _handle_call(node: ast.Call, ctx: Context) -> sympy.Expr | None:
     """
     model_args: list[sympy.Expr] = []
     for i in node.args:
+        if isinstance(i, ast.Starred):
+            msg = "Starred call arguments are not supported"
+            raise NotImplementedError(msg)
         if (expr := _handle_expr(i, ctx)) is None:
             return None
         model_args.append(expr)
-    _LOGGER.debug("Fn args: %s", model_args)
+    keyword_args: dict[str, sympy.Expr] = {}
+    for keyword in node.keywords:
+        if keyword.arg is None:
+            msg = "Unpacking of keyword arguments is not supported"
+            raise NotImplementedError(msg)
+        if (expr := _handle_expr(keyword.value, ctx)) is None:
+            return None
+        keyword_args[keyword.arg] = expr
+    _LOGGER.debug("Fn args: %s, %s", model_args, keyword_args)
 
     match node.func:
         case ast.Name(id):
@@ -741,10 +752,52 @@ def _handle_call(node: ast.Call, ctx: Context) -> sympy.Expr | None:
         return None
 
     if (fn := KNOWN_FNS.get(py_fn)) is not None:
+        if keyword_args:
+            msg = "Keyword arguments of library functions are not supported"
+            raise NotImplementedError(msg)
         return sympy.Float(fn(*model_args))  # type: ignore
 
     return fn_to_sympy(
         py_fn,
         origin=ctx.origin,
-        model_args=model_args,
+        model_args=_bind_call_args(py_fn, model_args, keyword_args),
     )
+
+
+def _bind_call_args(
+    fn: Callable,
+    args: list[sympy.Expr],
+    kwargs: dict[str, sympy.Expr],
+) -> list[sympy.Expr]:
+    """Bind the arguments of a call to the parameters of the called function.
+
+    Positional arguments first, then keywords by name, then numeric defaults,
+    like python does. Returns one expression per parameter, in parameter order.
+    """
+    params = list(inspect.signature(fn).parameters.values())
+    if any(
+        p.kind not in (p.POSITIONAL_ONLY, p.POSITIONAL_OR_KEYWORD) for p in params
+    ):
+        msg = "Only functions with plain parameters can be called"
+        raise NotImplementedError(msg)
+    if len(args) > len(params):
+        msg = f"Too many arguments for {fn.__name__}"
+        raise TypeError(msg)
+
+    bound: dict[str, sympy.Expr] = {
+        p.name: arg for p, arg in zip(params, args, strict=False)
+    }
+    keyword_names = {p.name for p in params if p.kind is p.POSITIONAL_OR_KEYWORD}
+    for name, arg in kwargs.items():
+        if name not in keyword_names or name in bound:
+            msg = f"Unexpected or repeated argument {name} for {fn.__name__}"
+            raise TypeError(msg)
+        bound[name] = arg
+    for p in params:
+        if p.name in bound:
+            continue
+        if isinstance(p.default, bool) or not isinstance(p.default, (int, float)):
+            msg = f"Missing argument {p.name} for {fn.__name__}"
+            raise TypeError(msg)
+        bound[p.name] = sympy.Float(p.default)
+    return [bound[p.name] for p in params]
